@@ -8,6 +8,7 @@ from nvlib.check import Prop
 
 WRAP = ["-Wl,--wrap=epoll_wait", "-Wl,--wrap=time", "-Wl,--wrap=platform_timer_start"]
 RESET_DURATION = 2           # ResetDuration: next_reset = now + 1 + rand() % 1 is deterministic
+CLEANUP_DURATION = 600       # CleanupDuration: clean_up() for objects nothing has applied to for 10 minutes
 HEAD = ["load reg /c09/reg"]
 PLAIN_MARK = "# plain"
 TAIL = ["step idle", "step idle", "step idle", "step idle", "step tick:40", "step tick:40", "step idle", "step idle"]
@@ -279,6 +280,7 @@ class C09(Prop):
         t += "/-- look_for_objects_to_swap period in seconds (literal) -/\ndef sweepPeriod : Nat := %d\n\n" % period
         t += "/-- MAX_VERB_BUFF of user_parser() (literal in simulate.c) -/\ndef maxVerbBuff : Nat := %d\n\n" % verbbuf
         t += "/-- ResetDuration of the verification configuration -/\ndef resetDuration : Nat := %d\n\n" % RESET_DURATION
+        t += "/-- CleanupDuration of the verification configuration -/\ndef cleanupDuration : Nat := %d\n\n" % CLEANUP_DURATION
         for name, lst in orders.items():
             t += "/-- statement order regenerated from the source (see props/c09.py gen_extra) -/\ndef %s : List String :=\n  [%s]\n\n" % (
                 name, ", ".join('"%s"' % x for x in lst))
@@ -297,7 +299,7 @@ class C09(Prop):
         # allocator does so at once - address reuse of connection records is only observable there
         self.exe_plain = E.compile_harness("c09", [os.path.join(E.VERIF, "harness/c09/c09.c")], kind="plain", extra=WRAP)
         self.conf = E.make_mudlib(ctx.rundir, master="/c09/master.c",
-                                  extra_conf="ResetDuration %d\nCleanupDuration 0\n" % RESET_DURATION)
+                                  extra_conf="ResetDuration %d\nCleanupDuration %d\n" % (RESET_DURATION, CLEANUP_DURATION))
 
     def run_impl(self, ctx, cases):
         # split into chunks: one harness process per chunk keeps a crash of the harness itself local
@@ -402,6 +404,13 @@ class C09(Prop):
                               "step send:c1:l1/l2/l3/ask/l5/l6/ send:c2:bye/never/ send:c3:a/b/c/", "step close:c1"])
         mk("input-to-console", ["mode console", "script u1 logon it:s", "script u1 it:s it:t;cerr", "script u1 it:t dest:me",
                                 "step cin:one/two/", "step cin:three/"])
+        # clean_up(): idle objects get it from the sweep; it raises, destructs itself, destructs the next object of the walk;
+        # a failing clean_up() does not restore the saved O_RESET_STATE (the object is reset again by the next sweep)
+        mk("clean-up-sweep", ["mode net", "clone o1 /c09/obj", "clone o2 /c09/obj", "clone o3 /c09/obj", "clone o4 /c09/obj",
+                              "script o1 cleanup err", "script o2 cleanup dest:me", "script o4 cleanup dest:o3;co:2:p",
+                              "script o3 reset cerr", "script o1 reset ok", "script o4 co:p w:x",
+                              "step tick", "step tick:1000", "step conn:c1 tick:1000", "step send:c1:a/ tick:1000",
+                              "step tick:1000", "step tick:5"])
         mk("connect-rejected", ["mode net", "script k1 connect rej", "step conn:c1", "step conn:c2", "step send:c2:a/"])
         return B
 
@@ -478,9 +487,14 @@ class C09(Prop):
             lines.append("clone o%d /c09/obj" % i)
         density = rng.weighted([(25, 2), (45, 3), (70, 2)])
         for i in range(1, nobjs + 1):
-            for kind in ("hb", "reset", "co:p", "co:q", "co:r"):
+            for kind in ("hb", "reset", "co:p", "co:q", "co:r", "cleanup"):
                 if rng.chance(density, 100):
-                    lines.append("script o%d %s %s" % (i, kind, self.gen_ops(rng, "o%d" % i, nusers, nobjs)))
+                    ops = self.gen_ops(rng, "o%d" % i, nusers, nobjs)
+                    if kind == "reset":
+                        # an object destructed by its own reset() would still get clean_up() from the C code when that
+                        # is due (apply to a destructed object): not scripted
+                        ops = ";".join("ok" if o in ("dest:me", "dest:o%d" % i) else o for o in ops.split(";"))
+                    lines.append("script o%d %s %s" % (i, kind, ops))
         for u in range(1, nusers + 2):
             for kind in ["logon", "input", "netdead", "hb", "co:p", "co:q", "it:s", "it:t"] + ["cmd:" + v for v in verbs]:
                 if rng.chance(density // 2 if kind in ("logon", "input") else density, 100):
@@ -595,7 +609,7 @@ class C09(Prop):
                 if len(acts) > 1:
                     batch = True
             if rng.chance(35, 100) or not acts:
-                acts.append(rng.weighted([("tick", 12), ("tick:1", 3), ("tick:5", 2), ("tick:1000", 2)]))
+                acts.append(rng.weighted([("tick", 12), ("tick:1", 3), ("tick:5", 2), ("tick:1000", 4)]))
             lines.append("step " + " ".join(acts))
             # directed: a third party frees a record whose own event is still waiting in the batch, with an accept in
             # between (the allocator hands the freed address to the new record): A's net_dead destructs B
